@@ -247,9 +247,14 @@ pub(crate) fn run() -> Result<(), Box<dyn std::error::Error>> {
                 let text = cmd["text"].as_str().unwrap_or("").to_string();
                 match catch(|| {
                     let mut g = crate::parol_ls_grammar::ParolLsGrammar::default();
-                    crate::parol_ls_parser::parse(&text, "verif.par", &mut g).is_ok()
+                    match crate::parol_ls_parser::parse(&text, "verif.par", &mut g) {
+                        Ok(_) => (true, false),
+                        // errors raised by semantic actions are not syntax errors
+                        Err(parol_runtime::ParolError::UserError(_)) => (false, false),
+                        Err(_) => (false, true),
+                    }
                 }) {
-                    Ok(ok) => json!({"ok": ok}),
+                    Ok((ok, syntax_error)) => json!({"ok": ok, "syntax_error": syntax_error}),
                     Err(p) => json!({"panic": p}),
                 }
             }
